@@ -23,6 +23,8 @@ def errToJson : Err → Json
   | .omitWithKey => Json.mkObj [("kind", "omitWithKey")]
   | .emptyId => Json.mkObj [("kind", "emptyId")]
   | .badName n => Json.mkObj [("kind", "badName"), ("name", jstr n)]
+  | .badRef => Json.mkObj [("kind", "badRef")]
+  | .xmlInvalid => Json.mkObj [("kind", "xmlInvalid")]
 
 def headerToJson (h : Header) : Json :=
   Json.mkObj [("title", jstr h.title), ("rootName", jstr h.rootName),
